@@ -116,6 +116,27 @@ def write_replay(pid, unit, f, r, witness=None):
     return path
 
 
+def calls_uncontracted_helper(r, f):
+    """name of a function that the failing function now calls and that is new to the unit (sliced automatically because
+    the changed code refers to it, hence without a contract): the failed proof is then no evidence of a violation"""
+    names = getattr(r, 'autosliced_fns', [])
+    if not names or not getattr(r, 'gen_path', None):
+        return None
+    try:
+        text = open(r.gen_path).read()
+    except OSError:
+        return None
+    i = text.find('//@fn %s |' % f['fn'])
+    if i < 0:
+        return None
+    j = text.find('//@endfn', i)
+    body = text[i:j if j > 0 else len(text)]
+    for n in names:
+        if re.search(r'\b%s\s*\(' % re.escape(n), body):
+            return n
+    return None
+
+
 def run_property(pid, tier, seed):
     t0 = time.time()
     if pid not in PROPS:
@@ -172,6 +193,7 @@ def run_property(pid, tier, seed):
             seen.add((u, f['obligation']))
             uniq.append((u, f))
         wcache = {}
+        reported = []
         for (u, f) in uniq:
             w = None
             try:
@@ -180,6 +202,11 @@ def run_property(pid, tier, seed):
                 w = wcache[u]
             except Exception as e:  # witness search only decorates
                 w = None
+            helper = calls_uncontracted_helper(results[u], f)
+            if helper and w is None:
+                # modular proof impossible (callee without contract) and no failing input on the real code: undecided, not an alarm
+                undecided.append((u, 'obligation %s of %s fails, but the function now calls `%s`, which is new and has no contract, and no failing input was found' % (f['obligation'], f['fn'], helper)))
+                continue
             path = write_replay(pid, u, f, results[u], w)
             line = 'VIOLATION property=%s replay=%s' % (pid, path)
             print('obligation=%s function=%s (%s): %s' % (f['obligation'], f['fn'], f['where'], f['message']))
@@ -187,7 +214,11 @@ def run_property(pid, tier, seed):
                 line += ' no-failing-input-found'
             print(line)
             vlines.append(line)
-    elif undecided:
+            reported.append((u, f))
+        violations = reported
+    if code == 1 and not vlines:
+        code = 0
+    if code == 0 and undecided:
         code = 2
         for (u, why) in undecided:
             print('UNDECIDED property=%s unit=%s reason=%s' % (pid, u, why[:1200]))
